@@ -243,37 +243,22 @@ func runHistory(tp *simrt.Tape, task int, nops int, fail func(class, msg string)
 				v.qual = append([]byte{}, dq[from:end]...)
 			}
 			if h.val.pmm != nil {
-				// position-bearing annotations follow the window (positions are 1-based)
+				// position-bearing annotations follow the window (positions are 1-based);
+				// for a wrapped circular window [from..L]+[1..to] the second part comes after
+				// the first one
 				v.pmm = map[string]int{}
 				for k, p := range h.val.pmm {
-					if to > from && p > from && p <= to {
+					switch {
+					case to > from && p > from && p <= to:
 						v.pmm[k] = p - from
+					case to <= from && p > from:
+						v.pmm[k] = p - from
+					case to <= from && p <= to:
+						v.pmm[k] = p + L - from
 					}
 				}
-				if to <= from {
-					v.pmm = nil // not modelled for wrapped windows
-				}
 			}
-			nh := add(sub, v, "sub of "+h.name)
-			if to <= from || h.val.pmm != nil {
-				// the coordinate transform of annotations is checked only where unambiguous
-				nh.val.pmm = nil
-				if m, ok := sub.GetIntMap("pairing_mismatches"); ok && len(m) > 0 {
-					if to > from {
-						want := map[string]int{}
-						for k, p := range h.val.pmm {
-							if p > from && p <= to {
-								want[k] = p - from
-							}
-						}
-						if mapString(m) != mapString(want) {
-							fail("C07/annotation-coordinates/subsequence", fmt.Sprintf("task %d: %s: pairing_mismatches %s, expected %s (source positions %s)", task, desc, mapString(m), mapString(want), mapString(h.val.pmm)))
-							return
-						}
-					}
-					nh.val.pmm = m
-				}
-			}
+			add(sub, v, "sub of "+h.name)
 		case 4, 5: // reverse complement
 			inplace := kind == 5
 			r := h.obj.ReverseComplement(inplace)
